@@ -17,6 +17,9 @@ struct Expect {
 }
 
 struct Live {
+    /// the region handles of the map, parallel to expect.regs (kept to hand the same handle to
+    /// other maps later)
+    arcs: Vec<Arc<GuestRegionMmap<()>>>,
     map: GuestMemoryMmap<()>,
     expect: Expect,
     parent: Option<Rc<Live>>,
@@ -107,14 +110,15 @@ fn explore(ctx: &Ctx, base: u64, u: usize) {
     let mut seen: HashMap<Vec<Iv>, usize> = HashMap::new();
     let mut frontier: VecDeque<Rc<Live>> = VecDeque::new();
     let mut transitions = 0u64;
+    let mut reuse = 0u64;
     // roots: every single-region map
     for &iv in &ivs {
         let r = new_region(iv, &mut serial);
         let tag = serial;
         let ptr = r.as_ptr() as usize;
-        match GuestMemoryMmap::from_arc_regions(vec![r]) {
+        match GuestMemoryMmap::from_arc_regions(vec![r.clone()]) {
             Ok(map) => {
-                let live = Rc::new(Live { map, expect: Expect { regs: vec![(iv.0, iv.1, ptr, tag)] }, parent: None, how: format!("from_arc_regions([{:?}])", iv) });
+                let live = Rc::new(Live { arcs: vec![r.clone()], map, expect: Expect { regs: vec![(iv.0, iv.1, ptr, tag)] }, parent: None, how: format!("from_arc_regions([{:?}])", iv) });
                 check_lineage(ctx, &live, "from_arc_regions");
                 seen.insert(vec![iv], 0);
                 frontier.push_back(live);
@@ -143,14 +147,17 @@ fn explore(ctx: &Ctx, base: u64, u: usize) {
             let tag = serial;
             let ptr = r.as_ptr() as usize;
             let overlap = state.iter().any(|s| intersects(*s, iv));
-            let res = live.map.insert_region(r);
+            let res = live.map.insert_region(r.clone());
             let how = format!("insert_region({:?}) into {:?}", iv, state);
             match (res, overlap) {
                 (Ok(m2), false) => {
                     let mut regs = live.expect.regs.clone();
                     regs.push((iv.0, iv.1, ptr, tag));
                     regs.sort();
-                    let next = Rc::new(Live { map: m2, expect: Expect { regs }, parent: Some(live.clone()), how: how.clone() });
+                    let mut arcs = live.arcs.clone();
+                    arcs.push(r.clone());
+                    arcs.sort_by_key(|a| a.start_addr().0);
+                    let next = Rc::new(Live { arcs, map: m2, expect: Expect { regs }, parent: Some(live.clone()), how: how.clone() });
                     if check_lineage(ctx, &next, &how) {
                         let st: Vec<Iv> = next.expect.regs.iter().map(|r| (r.0, r.1)).collect();
                         if !seen.contains_key(&st) {
@@ -170,6 +177,50 @@ fn explore(ctx: &Ctx, base: u64, u: usize) {
                         ctx.fail("C10/insert_region/wrong-error", &format!("{}: {} instead of MemoryRegionOverlap", how, err_name(&e)), json!({"state": state, "insert": iv}));
                     }
                     check_lineage(ctx, &live, &how);
+                }
+            }
+        }
+        // insert region handles that already exist: the ones this map holds (must be refused:
+        // a region overlaps itself) and the ones any ancestor map holds (removed since, or added
+        // on another branch); the outcome only depends on the ranges
+        {
+            let mut pool: Vec<(Arc<GuestRegionMmap<()>>, (u64, u64, usize, u8), usize)> = Vec::new();
+            let mut cur = Some(live.clone());
+            let mut gen = 0;
+            while let Some(l) = cur {
+                for (a, e) in l.arcs.iter().zip(&l.expect.regs) {
+                    if !pool.iter().any(|p| Arc::ptr_eq(&p.0, a)) {
+                        pool.push((a.clone(), *e, gen));
+                    }
+                }
+                cur = l.parent.clone();
+                gen += 1;
+            }
+            for (a, e, gen) in pool {
+                transitions += 1;
+                reuse += 1;
+                let iv = (e.0, e.1);
+                let overlap = state.iter().any(|s| intersects(*s, iv));
+                let how = format!("insert_region(existing handle {:?} held by the map {} generation(s) back) into {:?}", iv, gen, state);
+                match (live.map.insert_region(a.clone()), overlap) {
+                    (Ok(m2), false) => {
+                        let mut regs = live.expect.regs.clone();
+                        regs.push(e);
+                        regs.sort();
+                        let mut arcs = live.arcs.clone();
+                        arcs.push(a.clone());
+                        arcs.sort_by_key(|a| a.start_addr().0);
+                        let next = Rc::new(Live { arcs, map: m2, expect: Expect { regs }, parent: Some(live.clone()), how: how.clone() });
+                        check_lineage(ctx, &next, &how);
+                    }
+                    (Ok(m2), true) => ctx.fail("C10/insert_region/existing-handle/overlap-accepted", &format!("{}: accepted, new map {:?}", how, describe_map(&m2).iter().map(|r| (r.0, r.1)).collect::<Vec<_>>()), json!({"state": state, "insert": iv, "generations_back": gen})),
+                    (Err(err), false) => ctx.fail("C10/insert_region/existing-handle/valid-refused", &format!("{}: {:?}", how, err), json!({"state": state, "insert": iv, "generations_back": gen})),
+                    (Err(err), true) => {
+                        if !matches!(err, MmapError::MemoryRegionOverlap) {
+                            ctx.fail("C10/insert_region/existing-handle/wrong-error", &format!("{}: {}", how, err_name(&err)), json!({"state": state, "insert": iv}));
+                        }
+                        check_lineage(ctx, &live, &how);
+                    }
                 }
             }
         }
@@ -193,6 +244,8 @@ fn explore(ctx: &Ctx, base: u64, u: usize) {
                         }
                         let mut regs = live.expect.regs.clone();
                         regs.remove(i);
+                        let mut arcs = live.arcs.clone();
+                        arcs.remove(i);
                         if regs.is_empty() {
                             // an empty map is a valid result; nothing further to explore from it
                             if m2.num_regions() != 0 {
@@ -201,7 +254,7 @@ fn explore(ctx: &Ctx, base: u64, u: usize) {
                             check_lineage(ctx, &live, &how);
                             continue;
                         }
-                        let next = Rc::new(Live { map: m2, expect: Expect { regs }, parent: Some(live.clone()), how: how.clone() });
+                        let next = Rc::new(Live { arcs, map: m2, expect: Expect { regs }, parent: Some(live.clone()), how: how.clone() });
                         if check_lineage(ctx, &next, &how) {
                             let st: Vec<Iv> = next.expect.regs.iter().map(|r| (r.0, r.1)).collect();
                             if !seen.contains_key(&st) {
@@ -230,6 +283,7 @@ fn explore(ctx: &Ctx, base: u64, u: usize) {
     ctx.add_transitions(transitions);
     ctx.add_traces(transitions);
     ctx.extra_add("closures", 1);
+    ctx.extra_add("existing_handle_insertions", reuse);
     ctx.extra_add("max_depth_sum", max_depth as u64);
     if ctx.sample_n() < 3 {
         ctx.sample(json!({"base": format!("{:#x}", base), "universe": u, "states": seen.len(), "transitions": transitions, "example": "from {[b,+2) [b+3,+1)}: insert_region([b+2,+1)) -> {[b,+2) [b+2,+1) [b+3,+1)}; insert_region([b+1,+2)) -> MemoryRegionOverlap; remove_region(b, 1) -> InvalidGuestRegion; every ancestor map re-read after each step"}));
@@ -293,6 +347,30 @@ fn builds(ctx: &Ctx, base: u64, u: usize, max_len: usize) {
             }
         }
     }
+    // lists that name the same region handle more than once (a region overlaps itself)
+    let pool: Vec<Arc<GuestRegionMmap<()>>> = ivs.iter().map(|iv| new_region(*iv, &mut serial)).collect();
+    let np = pool.len();
+    let mut idx_lists: Vec<Vec<usize>> = Vec::new();
+    for a in 0..np {
+        idx_lists.push(vec![a, a]);
+        for b in 0..np {
+            if b != a {
+                idx_lists.extend([vec![a, a, b], vec![a, b, a], vec![b, a, a]]);
+            }
+        }
+        idx_lists.push(vec![a, a, a]);
+    }
+    for il in &idx_lists {
+        t += 1;
+        let list: Vec<Iv> = il.iter().map(|i| ivs[*i]).collect();
+        let unsorted = (0..list.len()).any(|i| (i + 1..list.len()).any(|j| list[i].0 > list[j].0));
+        match GuestMemoryMmap::from_arc_regions(il.iter().map(|i| pool[*i].clone()).collect()) {
+            Ok(m) => ctx.fail("C10/from_arc_regions/repeated-handle-accepted", &format!("{:?} (handles {:?}) accepted: {:?}", list, il, describe_map(&m).iter().map(|r| (r.0, r.1)).collect::<Vec<_>>()), json!({"list": list, "handles": il})),
+            Err(MmapError::MemoryRegionOverlap) => {}
+            Err(MmapError::UnsortedMemoryRegions) if unsorted => {}
+            Err(e) => ctx.fail("C10/from_arc_regions/repeated-handle-wrong-error", &format!("{:?}: {}", list, err_name(&e)), json!({"list": list, "handles": il})),
+        }
+    }
     ctx.add_transitions(t);
     ctx.add_traces(t);
 }
@@ -311,14 +389,14 @@ fn many_regions(ctx: &Ctx, n: usize) {
         regs.push((iv.0, iv.1, r.as_ptr() as usize, serial));
         arcs.push(r);
     }
-    let map = match GuestMemoryMmap::from_arc_regions(arcs) {
+    let map = match GuestMemoryMmap::from_arc_regions(arcs.clone()) {
         Ok(m) => m,
         Err(e) => {
             ctx.fail("C10/many-regions/build", &format!("{} regions: {:?}", n, e), json!({"n": n}));
             return;
         }
     };
-    let live = Rc::new(Live { map, expect: Expect { regs: regs.clone() }, parent: None, how: format!("from_arc_regions of {} regions", n) });
+    let live = Rc::new(Live { arcs: arcs.clone(), map, expect: Expect { regs: regs.clone() }, parent: None, how: format!("from_arc_regions of {} regions", n) });
     check_lineage(ctx, &live, "build");
     let state: Vec<Iv> = regs.iter().map(|r| (r.0, r.1)).collect();
     let mut t = 0u64;
@@ -335,7 +413,7 @@ fn many_regions(ctx: &Ctx, n: usize) {
                     let mut e = regs.clone();
                     e.push((iv.0, iv.1, ptr, tag));
                     e.sort();
-                    let next = Rc::new(Live { map: m2, expect: Expect { regs: e }, parent: Some(live.clone()), how: how.clone() });
+                    let next = Rc::new(Live { arcs: Vec::new(), map: m2, expect: Expect { regs: e }, parent: Some(live.clone()), how: how.clone() });
                     check_lineage(ctx, &next, &how);
                 }
                 (Ok(_), true) => ctx.fail("C10/many-regions/insert_region/overlap-accepted", &how, json!({"n": n, "insert": iv})),
@@ -355,8 +433,21 @@ fn many_regions(ctx: &Ctx, n: usize) {
                     }
                     let mut e = regs.clone();
                     e.remove(i);
-                    let next = Rc::new(Live { map: m2, expect: Expect { regs: e }, parent: Some(live.clone()), how: how.clone() });
+                    let next = Rc::new(Live { arcs: Vec::new(), map: m2, expect: Expect { regs: e }, parent: Some(live.clone()), how: how.clone() });
                     check_lineage(ctx, &next, &how);
+                    // the removed handle goes back into the map it was taken from (refused) and
+                    // into the map without it (accepted, same regions as before)
+                    t += 2;
+                    if live.map.insert_region(removed.clone()).is_ok() {
+                        ctx.fail("C10/many-regions/insert_region/existing-handle/overlap-accepted", &format!("{}; then the removed handle was accepted by the map that still holds it", how), json!({"n": n, "region": i}));
+                    }
+                    match next.map.insert_region(removed.clone()) {
+                        Ok(m3) => {
+                            let back = Rc::new(Live { arcs: Vec::new(), map: m3, expect: Expect { regs: regs.clone() }, parent: Some(next.clone()), how: format!("{} and insert_region(removed handle)", how) });
+                            check_lineage(ctx, &back, &back.how);
+                        }
+                        Err(e) => ctx.fail("C10/many-regions/insert_region/existing-handle/valid-refused", &format!("{}; re-inserting the removed handle: {:?}", how, e), json!({"n": n, "region": i})),
+                    }
                 }
                 (Ok(_), false) => ctx.fail("C10/many-regions/remove_region/no-exact-match-accepted", &how, json!({"n": n, "remove": (b, sz)})),
                 (Err(e), true) => ctx.fail("C10/many-regions/remove_region/exact-match-refused", &format!("{}: {:?}", how, e), json!({"n": n})),
@@ -398,7 +489,7 @@ fn top_of_address_space(ctx: &Ctx) {
 
 pub fn run(tier: Tier, replay: Option<String>) -> i32 {
     let ctx = crate::new_ctx("C10", tier, "model_checking", &replay);
-    ctx.set_rule("E1 to an empty frontier: state = sorted list of (start, length) of a GuestMemoryMmap over U one-byte cells; from every reachable map: insert_region for every interval of the universe (valid, adjacent, overlapping by one byte, duplicate start), remove_region for every (base, size) incl. wrong size and non-start address, clone; from_regions / from_arc_regions for every ordered list of up to 3 intervals (unsorted, overlapping, empty). Regions are real mmaps filled with a unique tag; the frontier keeps every map together with all its ancestors alive, and after every transition the whole lineage is re-read (same regions, same host pointers, same tags). GuestRegionMmap::new over raw regions with base+size within +-3 of 2^64.");
+    ctx.set_rule("E1 to an empty frontier: state = sorted list of (start, length) of a GuestMemoryMmap over U one-byte cells; from every reachable map: insert_region for every interval of the universe (valid, adjacent, overlapping by one byte, duplicate start), remove_region for every (base, size) incl. wrong size and non-start address, clone, and insert_region of every region handle that already exists in the map or in any of its ancestors (held by the map: refused; removed earlier or added on another branch: decided by the ranges alone); from_regions / from_arc_regions for every ordered list of up to 3 intervals (unsorted, overlapping, empty) and for every list of 2..3 handles in which one handle is repeated. Regions are real mmaps filled with a unique tag; the frontier keeps every map together with all its ancestors alive, and after every transition the whole lineage is re-read (same regions, same host pointers, same tags). GuestRegionMmap::new over raw regions with base+size within +-3 of 2^64.");
     ctx.assume("base + size == 2^64 at region creation is recorded, not judged; where a list is both unsorted and overlapping either documented error is accepted");
     if ctx.replay_of.is_some() {
         println!("replay: deterministic search; re-running it");
